@@ -248,6 +248,8 @@ func main() {
 			emit(fmt.Sprintf("hs connect %s %s %d", cstr(c), cstr(s), md), fmt.Sprintf("ok desc=%d schema=%s dict=%d", d, ssch, dict))
 			if uint64(dict) != md {
 				propFail("C14 dict-limit-not-applied client=%s server=%s advertised=%d got=%d", cstr(c), cstr(s), md, dict)
+				// C08 quantifies over limits "configured or received from the destination"
+				propFail("C08 dict-limit-not-applied client=%s server=%s advertised=%d got=%d", cstr(c), cstr(s), md, dict)
 			}
 			// would the server's reader accept the descriptor the writer is going to send?
 			// (BaseReader.ReadVarHeader: ownSchema.Compatible(streamSchema) must not fail)
